@@ -101,7 +101,11 @@ CHECKS["C04"] = _srv(
     "library listing may change, responses go only to the requester, relayed traffic only to the owner of the relayed address, "
     "AllocationCount equals the number of live 5-tuples and a second Allocate gets 437. Relational (metamorphic) form on top: the "
     "history is projected onto one client (all other clients' steps removed, elapsed time kept), re-run in a fresh world, and "
-    "that client's normalised observation log (responses, indications, ChannelData, emissions of its relay) must be identical.",
+    "that client's normalised observation log (responses, indications, ChannelData, emissions of its relay) must be identical. "
+    "One world in six (of those with IPv6) is a dual-stack wildcard listener serving IPv4 clients and IPv6 clients whose address bytes "
+    "coincide with an IPv4 client's (same ports). Stage allocation-key: FiveTuple.Fingerprint/Equal agree with equality of (client "
+    "endpoint, server endpoint, transport) on generated pairs related by representation (4-byte / IPv4-mapped), byte coincidences "
+    "between the families, single-bit and port-byte changes, address type and protocol. Stage tcp-isolation: the TCP-relay world.",
     "non-trivial = >=2 clients hold allocations and at least one cross-probe (other client's channel number, reused transaction id, "
     "other user's credentials on a live 5-tuple, a 437, or an unauthorised peer arrival while another authorisation is live)",
     _SRV_NOTE)
@@ -362,7 +366,10 @@ CHECKS["C18"] = {
     "claim": ("Perturb-and-observe under the race detector: (a) storms against a real server in a virtual-time bubble - 2-4 clients, 3 peers and a "
               "chaos actor each act from their own goroutine at the same virtual instants (all cores), with LIFETIME 1-4 s and permission/channel "
               "timeouts 1-5 s so that expiries coincide with requests, injected relay socket errors, Server.Close racing with traffic, "
-              "lifecycle callbacks and the auth handler sleeping virtual time; (b) the TCP-relay world of C16 (duplicate Connect, binds, "
+              "lifecycle callbacks and the auth handler sleeping virtual time; (a') the same for TCP allocations: stream clients (Allocate, "
+              "Refresh 0..n, CreatePermission, Connect with slow dials, ConnectionBind on fresh data connections, dropping and re-dialling "
+              "the control connection), peers dialling every relayed address handed out and answering/closing what the server dialled, "
+              "injected Accept errors, Server.Close; (b) the TCP-relay world of C16 (duplicate Connect, binds, "
               "closes) and (c) the client worlds (concurrent writers, Close racing with traffic) rebuilt with -race. Any DATA RACE report, any "
               "panic in any goroutine, any mutex not TryLock-able at quiescence, any goroutine left after teardown, and any imbalance of "
               "sockets / allocations / lifecycle events once everything is gone is a violation."),
@@ -372,7 +379,7 @@ CHECKS["C18"] = {
                    "claim is made. Callbacks sleep only where the library holds no lock: a goroutine waiting for a mutex is not durably "
                    "blocked for testing/synctest, so a sleep under a contended lock would freeze the virtual clock (harness limitation)."),
     "technique": "property-based schedule perturbation: rapid-generated concurrent storms and worlds under the Go race detector, order-insensitive invariants (lock probe, resource and event balance, goroutine drain)",
-    "rule": "non-trivial = at least one round in which several actors act in the same virtual instant against shared state (every storm with >= 1 action), or a TCP-world case with a successful bind and a duplicate Connect; distinct by hash",
+    "rule": "non-trivial = at least one round in which several actors act in the same virtual instant against shared state (every storm with >= 1 action; a TCP storm with >= 1 TCP allocation and >= 1 inbound peer connection), or a TCP-world case with a successful bind and a duplicate Connect; distinct by hash",
     "assumptions": [],
     "stages": [
         {"name": "storm-race", "pkg": "srvworld", "run": "^TestC18Storm$", "race": True,
